@@ -40,3 +40,48 @@ def run(ctx):
         for c in list(idx.values())[:1]:
             ctx.sample({"kind": "ids", "case": c["case"], "first_calls": sorted([(x["rank"], x["g"], x["k"], x["life"]) for x in c["calls"]])[:12]})
     stages.mgr_family(ctx, ["C18."], ["all"], lambda s: s["stim"]["msg"]["kind"] == "New" and s["t"]["hasPre"], quick_n=3000, invariants=["M_C18_Dup"], sims=False, keep=lambda l: any(k in l for k in ('"kind":"New"',)))
+    # a refused duplicate leaves the existing channel exactly as it was - also in what it does NEXT: the limit its validator set still stops it, positions it
+    # already counted are not counted again (deterministic histories on the real manager: create with a limit, progress, DUPLICATE new request, more reports)
+    Z = {"delta": 0, "index": 0, "unique": False, "limit": 0, "flag": False, "err": "", "v": ""}
+    NOMSG = {"isReq": False, "kind": "none", "tid": 0, "pull": False, "paused": False, "accepted": False, "v": "", "base": "", "sel": "", "ri": "", "rr": "", "rt": 0}
+    def stim(kind, **kw):
+        x = {"kind": kind, "c": "c1", "from": "B", "to": "B", "msg": dict(NOMSG), "val": {"err": False, "accepted": True, "vres": "", "force": False, "limit": 0, "reqFin": False},
+             "sendFail": [], "openFail": False, "args": dict(Z), "rereg": True, "tidOf": ""}
+        for k, v in kw.items():
+            if k in ("msg", "args", "val"):
+                x[k].update(v)
+            else:
+                x[k] = v
+        return x
+    hist = []
+    for pull in (True, False):
+        op = "OnDataQueued" if pull else "OnDataReceived"
+        for path in ("RecvRequest", "OnRequestReceived"):
+            for lim in (5, 0):
+                for duplim in (0, 9):
+                    new = {"isReq": True, "kind": "New", "tid": 1, "pull": pull, "v": "v0", "base": "base", "sel": "s"}
+                    steps = [stim(path, msg=new, val={"limit": lim}), stim("OnTransferInitiated"),
+                             stim(op, args={"delta": 2, "index": 1, "unique": True}), stim(op, args={"delta": 2, "index": 2, "unique": True}),
+                             stim(path, msg=new, val={"limit": duplim}),                                   # the duplicate (same initiator, same transfer id)
+                             stim(op, args={"delta": 2, "index": 2, "unique": True}),                     # a position counted before
+                             stim(op, args={"delta": 2, "index": 3, "unique": True}),                     # crosses the limit of 5 (4 + 2)
+                             stim(op, args={"delta": 1, "index": 4, "unique": True})]
+                    hist.append({"case": "dup-%d" % len(hist), "self": "A", "types": ["vt"], "chans": [], "steps": steps, "dupAt": 5})
+    hp = ctx.path("duphist.ndjson")
+    vlib.write_ndjson(hp, hist)
+    hobs = stages.run_mgr_scripts(ctx, hp)
+    hn, hverd = stages.judge(ctx, hobs, module="MgrJudge")
+    hidx = stages.index_obs(hobs)
+    for v in hverd:
+        if v["rule"] == "harness":
+            raise vlib.Inconclusive("duplicate-create histories: harness error in %s step %s" % (v["case"], v["i"]))
+        if v["i"] >= 5 and (v["rule"].startswith("C07.") or v["rule"].startswith("C08.") or v["rule"].startswith("C18.")):
+            st = [x for x in hidx[v["case"]]["steps"] if x.get("i") == v["i"]]
+            ctx.violation({"rule": "C18.dupLeavesBehaviour", "via": v["rule"], "op": v["op"]},
+                          "C18.dupLeavesBehaviour violated: after a refused duplicate new-request the existing channel no longer behaves as before (%s at step %d, %s; case %s)" % (v["rule"], v["i"], v["op"], v["case"]),
+                          detail={"verdict": v, "step": st[:1]})
+    for c in hidx.values():
+        ctx.traces += 1
+        ctx.evaluations += len(c["steps"])
+        ctx.distinct.add(("duphist", c["case"]))
+    ctx.extra["duplicate_then_continue_histories"] = hn
